@@ -268,14 +268,16 @@ func (e *Exec) checkGauges() {
 	n := e.hist.N()
 	if content.Canon() != e.hist.Last().Canon() {
 		d := e.hist.Last().Diff(content, "")
-		if strings.Contains(d, "child \"") && (strings.Contains(d, "want present") || strings.Contains(d, "want absent")) {
-			// Only the presence of a child collection differs.  Reported at the
+		J := e.hist.Match(content)
+		if len(J) > 0 && e.hist.PendingStructuralOnly(J[len(J)-1]) {
+			// Everything the lower level lacks are batches without key operations
+			// (child collections created empty / deleted).  Reported at the
 			// end of the run unless something else fails first, so that a
 			// structural change that is *never* persisted (a different defect)
 			// is not hidden behind this one.
 			if e.deferred == nil {
 				e.deferred = &Violation{Prop: e.c.Prop, Class: "gauges-zero-but-dirty", OpIdx: e.opIdx,
-					Detail: e.detail(map[string]string{"symptom": "gauges-zero-but-dirty", "diff": d}),
+					Detail: e.detail(map[string]string{"symptom": "gauges-zero-but-dirty", "diff": d, "pendingStructuralOnly": "true"}),
 					Msg: fmt.Sprintf("CurDirtyOps/Bytes/Segments are all zero after %d batches, but the lower level does not hold them all: %s", n, d)}
 			}
 			return
